@@ -481,10 +481,10 @@ func runAcctEngine(r *lib.Run, which string) {
 		"sequential (monitor after every step) then 2-8 concurrent clients with hook-injected delays (sampler + quiescence). " +
 		"distinct = (storage mode, #entries, accounted size, reserved) states observed at monitor points")
 	r.Assume("snapshot hook disk.VerifSnapshot copies the index under the cache's own mutex")
-	nSeq := r.N(250, 3000)
-	nConc := r.N(60, 800)
+	nSeq := r.N(250, 2000)
+	nConc := r.N(60, 500)
 	if which == "C04" {
-		nSeq, nConc = r.N(150, 2500), r.N(50, 700) // every step walks the directory tree
+		nSeq, nConc = r.N(150, 1500), r.N(50, 400) // every step walks the directory tree
 	}
 	maxOps := r.N(40, 120)
 	rng := r.Rng("acct")
